@@ -20,18 +20,18 @@ T = {
  "C06-B": ("C06", "dates before the 18th whose mid-month term falls on the 16th/17th (years >= 5260)", "C06 06.b/B/term-day-aligned (engine B; confirmed by the native scan of sampled years 1583..7275)", ""),
  "C07-A": ("C07", "January/February of century years not divisible by 400 (century term from the un-shifted year)", "C01 01.c/ord (months 1, 2)", "the property it was written for (C07) composes with C01: the day count itself is wrong"),
  "C07-B": ("C07", "= C02-A", None, "outside (data-dependent first-month offset)"),
- "C08-A": ("C08", "the Lichun day itself in years where Lichun precedes lunar New Year (>= became >)", None, "outside: WHEN the year pillar switches is not claimed (SixtyCycleDay::from_solar_day runs over real term and lunar data)"),
+ "C08-A": ("C08", "the Lichun day itself in years where Lichun precedes lunar New Year (>= became >)", "C08 08.d/B/day-view (engine B; kernel added after this change was first missed; confirmed by the native scan: 2024-02-04)", ""),
  "C08-B": ("C08", "negative steps of SixtyCycleMonth::next crossing below the Yin month (year borrow dropped)", "C08 11.g/B/sixty-month-next (engine B)", ""),
  "C09-A": ("C09", "inverse search skips the 60-year cycle anchored at start_year - 1", None, "outside: the inverse search is not claimed"),
- "C09-B": ("C09", "hour 23 in the instant-level view: hour stem computed before the day roll", None, "outside: the instant-level view (SixtyCycleHour::from_solar_time) is not claimed; the lunar-hour route (09.a) is unchanged by this mutant"),
+ "C09-B": ("C09", "hour 23 in the instant-level view: hour stem computed before the day roll", "C09 09.c/B/instant-view (engine B; kernel added after this change was first missed)", ""),
  "C11-A": ("C11", "negative second steps that land exactly on hour 00 after crossing midnight (floor-division slip)", "C12 12.a/B/next (engine B, 0.6 s)", ""),
  "C11-B": ("C11", "LunarWeek::next backwards out of a leap month", None, "outside: lunar weeks are not claimed"),
  "C12-A": ("C12", "SolarTime::next fast path day + td inside October 1582", "C12 12.a/A/next and 12.a/A/next-calendar (Kani; engine B declines the changed call structure)", ""),
  "C12-B": ("C12", "= C07-A", "C01 01.c/ord (months 1, 2)", ""),
  "C13-A": ("C13", "day of year summed from month lengths: wrong only on 1582-10-15..31", "C01 01.h/day-of-year-cal (window 1580-1584)", ""),
- "C13-B": ("C13", "sexagenary month listing empty when Lichun precedes lunar New Year (= C08-A)", None, "outside: sexagenary month -> days is not claimed"),
+ "C13-B": ("C13", "sexagenary month listing empty when Lichun precedes lunar New Year (= C08-A)", "C08 08.d/B/day-view (the underlying year-pillar slip; C13's own clause, sexagenary month -> days, is not claimed)", ""),
  "C14-A": ("C14", "= C11-B (lunar week stepping)", None, "outside: lunar weeks are not claimed"),
- "C14-B": ("C14", "SolarWeek::get_first_day fast path from the day number: weeks of October 1582 with index >= 1", "C14 14.a/weeks/wd1 (Kani; Monday = the real weekday of 1582-10-01 is always in the quick set)", ""),
+ "C14-B": ("C14", "SolarWeek::get_first_day fast path from the day number: weeks of October 1582 with index >= 1", "C14 14.a/weeks/wd1 (Kani flags the obligation; the trace run times out, the native candidate grid supplies the witness; ~16 min for this failing run)", ""),
  "C15-A": ("C15", "Dog days start 10 days late when the summer-solstice day is itself a Geng day", "C15 15.c/B/dog-days (engine B, confirmed on 2000 / 2021)", ""),
  "C15-B": ("C15", "pentad day index wraps on day 15 of a 16-day term", "C15 15.b/B/pentads (engine B)", ""),
  "C16-A": ("C16", "year carry dropped when the day overflow leaves December", "C16 16.c/B/addition (engine B on a semantic month ordinal; confirmed by the native scan of births 1990-1992)", ""),
